@@ -23,7 +23,7 @@ ASSUMPTIONS = [
     "rejected steps inside solve_stochast are observed through the engine's own 'Illegal jump' message (captured stdout)",
     "the all-rates-zero return of the step functions is not a rejected step and is not compared",
 ]
-BUDGET = {"quick": (4, 90), "thorough": (16, 1200)}
+BUDGET = {"quick": (4, 160), "thorough": (16, 1200)}
 TECHNIQUE = "property-based testing (Hypothesis @given over models with per-state limits, algorithms, step sizes and seeds) with a path invariant and a step-level accept/reject relation"
 LEVEL_TEXT = ("Exploration over programs, configurations and random streams: the limit invariant is checked on every recorded state; "
               "the accept/reject contract is checked directly on the step functions.")
@@ -67,7 +67,7 @@ def strategy(tier):
                 "pre_tau": draw(st.sampled_from([0.05, 0.5, 2.0, 10.0])),
                 "epsilon": draw(st.sampled_from([None, 0.01, 0.1, 0.5])),
                 "grid_n": draw(st.sampled_from([0, 0, 4, 7])),
-                "probe": [draw(st.integers(0, 6)) for _ in ir.state_names(m)]}
+                "probe": [draw(st.sampled_from([0, 0, 0, 1, 2, 5])) for _ in ir.state_names(m)]}
     return case()
 
 
